@@ -469,11 +469,15 @@ func (db *DB) setEntry(data *kv.Entry) error {
 
 	// Delegate to the commit pipeline to leverage batching and VLog offloading.
 	data.IncrRef()
-	if err := db.batchSet([]*kv.Entry{data}); err != nil {
+	req, err := db.sendToWriteCh([]*kv.Entry{data}, true)
+	if err != nil {
+		// Rejected before the request took the reference.
 		data.DecrRef()
 		return err
 	}
-	return nil
+	// From here on the request owns the reference and drops it in Wait, also
+	// when the commit failed.
+	return req.Wait()
 }
 
 // SetVersionedEntry writes a value to the specified column family using the
@@ -501,11 +505,15 @@ func (db *DB) SetVersionedEntry(cf kv.ColumnFamily, key []byte, version uint64, 
 
 	// Delegate to the commit pipeline to leverage batching and VLog offloading.
 	entry.IncrRef()
-	if err := db.batchSet([]*kv.Entry{entry}); err != nil {
+	req, err := db.sendToWriteCh([]*kv.Entry{entry}, true)
+	if err != nil {
+		// Rejected before the request took the reference.
 		entry.DecrRef()
 		return err
 	}
-	return nil
+	// From here on the request owns the reference and drops it in Wait, also
+	// when the commit failed.
+	return req.Wait()
 }
 
 // DeleteVersionedEntry marks the specified version as deleted by writing a
